@@ -9,6 +9,9 @@ def body(chk):
     # every scenario of a feature reaches the queue, filed under its own rule (also with a rule left empty by a filter in front)
     from checks import insert_retry
     insert_retry.obligations(chk, 'C04')
+    # the crate's hand-written futures never return Pending without having registered the waker of that poll
+    from checks import wakeups
+    wakeups.wake_up_contract(chk, 'C04')
 
 
 if __name__ == '__main__':
